@@ -143,11 +143,64 @@ def run(ctx: Ctx) -> Outcome:
             seen.add(v.signature)
             out.violations.append(v)
     korder_corr(ctx, out)
+    for name, shape, msg in noop_view_cases():
+        sig = f"C04|noop-view-detached|{name}"
+        if sig not in seen:
+            seen.add(sig)
+            out.violations.append(Violation(sig, f"{name} on a tensor of shape {shape}: {msg}", {"kind": "noop", "name": name}))
+    out.evaluations += 26
     out.assumptions = ["advanced-index assignment whose value aliases the target (NumPy's result is order-dependent there) is excluded",
                        "H_fresh: leaves own fresh memory (tensors made with copy=False from overlapping user arrays are outside the model)",
                        "owner tensors are C- or Fortran-ordered leaves; the copy of the base made by an in-place update is laid out "
                        "by NumPy's 'K' rule (modelled, korderStrides, tied to NumPy on every run); the result layout of element-wise "
                        "kernels on non-C-contiguous operands is not modelled: `reshape` is generated only where the model knows the strides"]
+    return out
+
+
+def noop_view_cases():
+    """view-producing routines called so that there is *nothing to do* (NumPy then returns the input array itself or a
+    trivial view of it): the result shares memory with x, so x must be its base and an in-place update of x must be
+    seen through it, exactly as on ndarrays"""
+    import mygrad as mg
+
+    ops = [("squeeze", lambda t: mg.squeeze(t), lambda a: np.squeeze(a)),
+           ("squeeze-method", lambda t: t.squeeze(), lambda a: a.squeeze()),
+           ("reshape-same", lambda t: t.reshape(t.shape), lambda a: a.reshape(a.shape)),
+           ("ravel-1d", lambda t: mg.ravel(t), lambda a: np.ravel(a)),
+           ("transpose-1d", lambda t: t.T, lambda a: a.T),
+           ("transpose-fn", lambda t: mg.transpose(t), lambda a: np.transpose(a)),
+           ("ellipsis", lambda t: t[...], lambda a: a[...]),
+           ("full-slice", lambda t: t[:], lambda a: a[:]),
+           ("broadcast_to-same", lambda t: mg.broadcast_to(t, t.shape), lambda a: np.broadcast_to(a, a.shape)),
+           ("swapaxes-same", lambda t: mg.swapaxes(t, 0, 0), lambda a: np.swapaxes(a, 0, 0)),
+           ("moveaxis-same", lambda t: mg.moveaxis(t, 0, 0), lambda a: np.moveaxis(a, 0, 0)),
+           ("atleast_1d", lambda t: mg.atleast_1d(t), lambda a: np.atleast_1d(a)),
+           ("expand-squeeze", lambda t: mg.squeeze(mg.expand_dims(t, 0)), lambda a: np.squeeze(np.expand_dims(a, 0)))]
+    out = []
+    for shape in [(4,), (2, 3)]:
+        for name, f, g in ops:
+            a = np.arange(float(np.prod(shape))).reshape(shape).copy()
+            x = mg.tensor(a.copy())
+            try:
+                y, b = f(x), g(a)
+            except Exception as e:  # noqa: BLE001
+                out.append((name, shape, f"raised {type(e).__name__}"))
+                continue
+            if y is x:
+                continue
+            shares = bool(np.shares_memory(b, a))
+            if bool(np.shares_memory(y.data, x.data)) != shares:
+                out.append((name, shape, f"shares_memory = {not shares}, NumPy: {shares}"))
+                continue
+            if shares and y.base is not x:
+                out.append((name, shape, "the result shares memory with x but x is not its .base"))
+                continue
+            if name.startswith("broadcast_to"):
+                continue  # read-only in NumPy: no update through / under it is compared
+            x[...] = 7.0
+            a[...] = 7.0
+            if not np.array_equal(y.data, g(a)) or not np.array_equal(x.data, a):
+                out.append((name, shape, f"after x[...] = 7 the result reads {y.data.tolist()}, NumPy {np.asarray(g(a)).tolist()}"))
     return out
 
 
@@ -288,6 +341,11 @@ def shape_setter_cases(ctx):
 
 
 def check_witness(w):
+    if "noop" in w:
+        for name, shape, msg in noop_view_cases():
+            if name == w["noop"]:
+                return Violation(f"C04|noop-view-detached|{name}", f"{name} on a tensor of shape {shape}: {msg}", {"kind": "noop", "name": name})
+        return None
     if "program" in w:
         for cls, msg in oracle(w["program"], 0):
             if cls.endswith("!"):
@@ -299,6 +357,10 @@ def check_witness(w):
 
 def replay(data) -> bool:
     r = data["replay"]
+    if r.get("kind") == "noop":
+        f = [c for c in noop_view_cases() if c[0] == r["name"]]
+        print(f)
+        return bool(f)
     if r.get("kind") == "shape":
         cls, msg = run_shape_steps(r["steps"])
         print(cls, msg)
